@@ -2284,6 +2284,8 @@ package go_clipper2
 //@   ensures [a-sloped-open-end-leaves-the-list-detached-from-its-path] (openEnd(ae) && ae.top.Y != ae.bot.Y) ==> (ae.outrec == nil && result == old(ae.nextInAEL) && (old(ae.outrec) != nil ==> ((old(ae.outrec.frontEdge) == ae ==> old(ae.outrec).frontEdge == nil) && (old(ae.outrec.frontEdge) != ae ==> old(ae.outrec).backEdge == nil))) && (old(ae.prevInAEL) != nil ==> old(ae.prevInAEL).nextInAEL == old(ae.nextInAEL)) && (old(ae.prevInAEL) == nil ==> c.actives == old(ae.nextInAEL)))
 //@   ensures [a-horizontal-open-end-stays-for-the-horizontal-pass] (openEnd(ae) && ae.top.Y == ae.bot.Y) ==> (result == old(ae.nextInAEL) && ae.outrec == old(ae.outrec) && ae.nextInAEL == old(ae.nextInAEL) && c.actives == old(c.actives))
 //@   loop 0 step [the-edge-is-crossed-with-its-right-neighbour-until-it-meets-its-partner] nextE == ae.nextInAEL
+//@   ensures [once-the-pair-is-removed-the-walk-resumes-right-after-the-edge-that-stood-left-of-the-maximum-on-entry-so-edges-swapped-past-it-are-still-visited] returnIndex >= 3 ==> ((old(ae.prevInAEL) != nil ==> result == old(ae.prevInAEL).nextInAEL) && (old(ae.prevInAEL) == nil ==> result == c.actives))
+//@   ensures [an-edge-without-a-partner-in-the-list-waits] returnIndex == 2 ==> result == old(ae.nextInAEL)
 
 //@ func clipperBase.doTopOfScanbeam
 //@   props C01 C17 C19 C02 C04 C05 C08 C09 C10
